@@ -111,6 +111,8 @@ Definition show_report (r : option (list finding)) : string :=
         ++ " | " ++ show_json (to_dict default_verbosity fs)
         ++ " | " ++ show_json (json_file fs)
         ++ " | " ++ show_outcome (loader LIKELY_SAFE fs)
+        (* the report at EVERY verbosity (Severity members in definition order) *)
+        ++ " | " ++ String.concat " ; " (map (fun v => show_json (to_dict v fs)) (seq 0 nsev))
   end.
 
 Definition handle_analysis (cmd : string) (args : list sexp) : option string :=
